@@ -187,6 +187,8 @@ def rule_pass(ctx):
     vs = find_fn(SA, "visit_statement")
     if vs is None:
         return ctx.missing(R, "signal_assignments::visit_statement")
+    import alpha
+    vs, _m = alpha.canon_fields(vs, [("meta", "Substitution", "meta"), ("var", "Substitution", "var"), ("op", "Substitution", "op"), ("rhe", "Substitution", "rhe")], [("stmt", "param", 0), ("signal_use", "param", 1)])
     adds = list(method_calls(vs["body"], "add_assignment"))
     if len(adds) != 1:
         ctx.bad(R, "visit_statement/record", "expected one add_assignment, found %d" % len(adds), site(SA, vs))
